@@ -1,7 +1,189 @@
+/- Driver ops of the ELECTRE III stages (C05 / C06); mirrors harness/main/c05.go. -/
 import Rdm.Ops.Codec
+import Rdm.Model.Electre
+import Rdm.Spec.C05
 namespace Rdm.Ops
 open Rdm
+variable {α : Type} [Num α]
 
-def electreOps : List (String × (List SExp → R SExp)) := []
+/-- `(size (data ...))` -/
+def decMatrix (e : SExp) : R (Matrix α) := do
+  match e with
+  | .list [n, d] => pure ⟨← n.asNat, ← decNums d⟩
+  | _ => throw s!"bad matrix {e}"
+def encMatrix (m : Matrix α) : SExp := .list [SExp.nat m.size, encNums m.data]
+
+/-- `default` (the constant of distilation.go, from the generated facts) or `(a b)` -/
+def decDist (e : SExp) : R (LinFun α) :=
+  match e with
+  | .atom "default" => pure defaultDistillation
+  | _ => decLinFun e
+
+def decNats (e : SExp) : R (List Nat) := e.mapList SExp.asNat
+
+def encLinked (l : Linked (Int × Int)) : SExp :=
+  .list [SExp.str l.id, SExp.int l.ev.1, SExp.int l.ev.2, encStrs l.links]
+def decLinked (e : SExp) : R (Linked (Int × Int)) := do
+  match e with
+  | .list [i, a, d, l] => pure ⟨← i.asStr, (← a.asInt, ← d.asInt), ← decStrs l⟩
+  | _ => throw s!"bad electre entry {e}"
+
+def encERes (r : ERes α) : SExp := .list [SExp.num r.c, SExp.num r.d]
+def decERes (e : SExp) : R (ERes α) := do
+  match e with
+  | .list [c, d] => pure ⟨← c.asNum, ← d.asNum⟩
+  | _ => throw s!"bad electre result {e}"
+
+/-- `(electre-crit c1 c2 crit ecrit)` → `(C D)` — `calculateElectreResult` on signed values -/
+def opElectreCrit (args : List SExp) : R SExp := do
+  match args with
+  | [c1, c2, c, t] =>
+    let c1 : Float ← c1.asNum
+    let c2 : Float ← c2.asNum
+    let c : Crit Float ← decCrit c
+    let t : ECrit Float ← decECrit t
+    pure (encERes (calcElectreResult c1 c2 c.mult t))
+  | _ => throw "electre-crit: arity"
+
+/-- `(electre-matrix alts crits ec)` → `(ok (size data))` | `(err)` — `evaluateCredibilityMatrix` -/
+def opElectreMatrix (args : List SExp) : R SExp := do
+  match args with
+  | [a, c, ec] =>
+    let alts : List (Alt Float) ← decAlts a
+    let crits : List (Crit Float) ← decCrits c
+    let ec : KMap (ECrit Float) ← ec.asKMap decECrit
+    pure (encR (credibilityMatrix alts crits ec) encMatrix)
+  | _ => throw "electre-matrix: arity"
+
+/-- `(electre-rank-asc m dist)` / `(electre-rank-desc m dist)` → `(ok (ints))` | `(err)` -/
+def opElectreRank (asc : Bool) (args : List SExp) : R SExp := do
+  match args with
+  | [m, s] =>
+    let m : Matrix Float ← decMatrix m
+    let s : LinFun Float ← decDist s
+    pure (encR (if asc then rankAscending m s else rankDescending m s) encInts)
+  | _ => throw "electre-rank: arity"
+
+/-- `(electre-slice m idx)` etc. → `(size data)`; `flat` selects the literal flat-array model -/
+def opElectreSub (slice flat : Bool) (args : List SExp) : R SExp := do
+  match args with
+  | [m, idx] =>
+    let m : Matrix Float ← decMatrix m
+    let idx ← decNats idx
+    pure (encMatrix (match slice, flat with
+      | true, false => m.slice idx
+      | true, true => m.sliceFlat idx
+      | false, false => m.without idx
+      | false, true => m.withoutFlat idx))
+  | _ => throw "electre-slice/without: arity"
+
+/-- `(electre-links asc desc ids)` → `((id asc desc (links)) ...)` — `EvaluateRanking` -/
+def opElectreLinks (args : List SExp) : R SExp := do
+  match args with
+  | [a, d, ids] =>
+    pure (.list ((evaluateRanking (← decInts a) (← decInts d) (← decStrs ids)).map encLinked))
+  | _ => throw "electre-links: arity"
+
+/-- `(electre-e2e alts crits ec dist)` → `(ok ((id asc desc (links)) ...))` | `(err)` — `ElectreIII` -/
+def opElectreE2E (args : List SExp) : R SExp := do
+  match args with
+  | [a, c, ec, s] =>
+    let alts : List (Alt Float) ← decAlts a
+    let crits : List (Crit Float) ← decCrits c
+    let ec : KMap (ECrit Float) ← ec.asKMap decECrit
+    let s : LinFun Float ← decDist s
+    pure (encR (electreIII alts crits ec s) fun l => .list (l.map encLinked))
+  | _ => throw "electre-e2e: arity"
+
+/-- `(electre-validate ecrit)` → `true|false` (accepted) — `validateParameters` -/
+def opElectreValidate (args : List SExp) : R SExp := do
+  match args with
+  | [t] =>
+    let t : ECrit Float ← decECrit t
+    pure (SExp.bool (match validateParameters t with | .ok _ => true | .error _ => false))
+  | _ => throw "electre-validate: arity"
+
+/-- `(electre-dist-valid (a b))` → `true|false` — the guard of `getDistillationFunc` -/
+def opElectreDistValid (args : List SExp) : R SExp := do
+  match args with
+  | [s] =>
+    let s : LinFun Float ← decLinFun s
+    pure (SExp.bool (validDistillation s))
+  | _ => throw "electre-dist-valid: arity"
+
+/-! ### spec checkers on the implementation's outputs -/
+
+/-- `(check-c05-crit c1 c2 ecrit (C D))` -/
+def opCheckC05Crit (args : List SExp) : R SExp := do
+  match args with
+  | [c1, c2, t, res] =>
+    let t : ECrit Rat ← decECrit t
+    if !Spec.C05.critInDomain t then throw "check-c05-crit: out of domain"
+    pure (.atom (Spec.C05.explainCrit (← c1.asNum) (← c2.asNum) (← decERes res)))
+  | _ => throw "check-c05-crit: arity"
+
+def allInDomain (crits : List (Crit Rat)) (ec : KMap (ECrit Rat)) : Bool :=
+  !crits.isEmpty && crits.all fun c => match ec.get? c.id with
+    | some t => Spec.C05.critInDomain t
+    | none => false
+
+/-- `(check-c05-matrix alts crits ec (size data))` -/
+def opCheckC05Matrix (args : List SExp) : R SExp := do
+  match args with
+  | [a, c, ec, m] =>
+    let alts : List (Alt Rat) ← decAlts a
+    let crits : List (Crit Rat) ← decCrits c
+    let ec : KMap (ECrit Rat) ← ec.asKMap decECrit
+    if !allInDomain crits ec then throw "check-c05-matrix: out of domain"
+    pure (.atom (Spec.C05.explainMatrix alts crits ec (← decMatrix m)))
+  | _ => throw "check-c05-matrix: arity"
+
+/-- `(check-c05-rank m dist asc desc)` -/
+def opCheckC05Rank (args : List SExp) : R SExp := do
+  match args with
+  | [m, s, a, d] =>
+    let sQ : LinFun Rat ← decDist s
+    if !Spec.C05.distInDomain sQ then throw "check-c05-rank: out of domain"
+    pure (.atom (Spec.C05.explainRank (← decMatrix m) (← decDist s) (← decMatrix m) sQ (← decInts a) (← decInts d)))
+  | _ => throw "check-c05-rank: arity"
+
+/-- `(c05-illcond m dist)` → `true|false` (informational, not part of any verdict) -/
+def opC05IllCond (args : List SExp) : R SExp := do
+  match args with
+  | [m, s] => pure (SExp.bool (Spec.C05.illConditioned (← decMatrix m) (← decDist s) (← decMatrix m) (← decDist s)))
+  | _ => throw "c05-illcond: arity"
+
+/-- `(check-c05-links ((id asc desc (links)) ...))` -/
+def opCheckC05Links (args : List SExp) : R SExp := do
+  match args with
+  | [l] => pure (.atom (Spec.C05.explainLinks (← l.mapList decLinked)))
+  | _ => throw "check-c05-links: arity"
+
+/-- `(check-c05-e2e ids m dist ((id asc desc (links)) ...))`: the final answer of `ElectreIII` carries the
+    class numbers of the two declarative distillations of the (separately checked) credibility matrix,
+    in the order of the alternatives, and the links clause holds -/
+def opCheckC05E2E (args : List SExp) : R SExp := do
+  match args with
+  | [ids, m, s, out] =>
+    let ids ← decStrs ids
+    let out ← out.mapList decLinked
+    let sQ : LinFun Rat ← decDist s
+    if !Spec.C05.distInDomain sQ then throw "check-c05-e2e: out of domain"
+    if out.map (·.id) != ids then pure (.atom "alternatives-order")
+    else
+      let r := Spec.C05.explainRank (← decMatrix m) (← decDist s) (← decMatrix m) sQ (out.map (·.ev.1)) (out.map (·.ev.2))
+      if r != "ok" then pure (.atom r) else pure (.atom (Spec.C05.explainLinks out))
+  | _ => throw "check-c05-e2e: arity"
+
+def electreOps : List (String × (List SExp → R SExp)) :=
+  [("electre-crit", opElectreCrit), ("electre-matrix", opElectreMatrix),
+   ("electre-rank-asc", opElectreRank true), ("electre-rank-desc", opElectreRank false),
+   ("electre-slice", opElectreSub true false), ("electre-slice-flat", opElectreSub true true),
+   ("electre-without", opElectreSub false false), ("electre-without-flat", opElectreSub false true),
+   ("electre-links", opElectreLinks), ("electre-e2e", opElectreE2E),
+   ("electre-validate", opElectreValidate), ("electre-dist-valid", opElectreDistValid),
+   ("check-c05-crit", opCheckC05Crit), ("check-c05-matrix", opCheckC05Matrix),
+   ("check-c05-rank", opCheckC05Rank), ("c05-illcond", opC05IllCond),
+   ("check-c05-links", opCheckC05Links), ("check-c05-e2e", opCheckC05E2E)]
 
 end Rdm.Ops
